@@ -25,6 +25,8 @@ FLOATS = [0.0, -0.0, 1.0, 0.1, -2.5, 1e22, 5e-324, 1.7976931348623157e308, float
           3.141592653589793, 2.0 ** 53, 1 / 3]
 INTS = [0, 1, -1, 7, 255, -128, 2 ** 31, 2 ** 62, -2 ** 63, 2 ** 63 - 1, 2 ** 70, -2 ** 100, 10 ** 18]
 BITGENS = ["PCG64", "MT19937", "Philox", "SFC64"]
+ATTRS_CLASSES = ["NodeAttrs", "NodeSlots"]          # attrs-decorated classes of harness.c01_classes (fixed fields)
+ATTRS_FIELDS = ["a", "b", "x", "data"]
 
 
 def _np_scalar(r, dt=None, small=False):
@@ -83,9 +85,9 @@ def gen_numeric_seq(r):
 def gen_leaf(r, in_cont, torch_ok=True):
     kinds = ["none", "bool", "int", "float", "str", "path", "np", "arr", "arr", "arr0", "arrE"]
     if torch_ok:
-        kinds += ["tensor", "tensor", "module", "logger"]
+        kinds += ["tensor", "tensor", "module", "logger", "rng", "complex", "npcomplex"]
         if not in_cont:
-            kinds += ["rng", "optimizer", "scheduler", "tgen", "complex"]
+            kinds += ["optimizer", "scheduler", "tgen"]
     k = r.choice(kinds)
     if k == "none":
         return ["none"]
@@ -125,11 +127,17 @@ def gen_leaf(r, in_cont, torch_ok=True):
         return ["scheduler", r.choice(["adam", "sgd"]), r.randrange(10 ** 6), r.randint(0, 3)]
     if k == "tgen":
         return ["tgen", r.randrange(10 ** 6)]
+    if k == "npcomplex":
+        return ["np", r.choice(["complex64", "complex128"]), [r.choice([0.0, 1.5, -2.0]), r.choice([1.0, -0.5, 0.0])]]
     return ["complex", r.choice([0.0, 1.5, -2.0]), r.choice([1.0, -0.5])]
 
 
 def gen_hashable(r):
-    k = r.choice(["int", "str", "float", "none", "path", "tuple", "bool", "np"])
+    k = r.choice(["int", "str", "float", "none", "path", "tuple", "bool", "np", "rng", "complex"])
+    if k == "rng":
+        return ["rng", r.choice(BITGENS), r.randrange(10 ** 6)]
+    if k == "complex":
+        return ["complex", float(r.randint(2, 99)), r.choice([1.0, -0.5])]
     if k == "int":
         return ["int", r.randint(2, 10 ** 6)]
     if k == "str":
@@ -192,8 +200,14 @@ def gen_value(r, depth, in_cont, width, allow_obj=True, torch_ok=True):
 
 
 def gen_obj(r, depth, width, allow_obj_in_cont=True, torch_ok=True, names=None):
-    keys = r.sample(names or ATTR_NAMES, r.randint(1, width))
-    return ["obj", r.choice(["NodeA", "NodeB", "NodeC"]),
+    cls = r.choice(["NodeA", "NodeB", "NodeC"])
+    if names is None and r.random() < 0.12:
+        # attrs-decorated class: the serializer reads the declared fields (fields left out keep their default None)
+        cls = r.choice(ATTRS_CLASSES)
+        keys = r.sample(ATTRS_FIELDS, r.randint(1, min(width, len(ATTRS_FIELDS))))
+    else:
+        keys = r.sample(names or ATTR_NAMES, r.randint(1, width))
+    return ["obj", cls,
             [[kk, gen_value(r, depth, False, max(2, width - 1), allow_obj_in_cont, torch_ok)] for kk in keys]]
 
 
@@ -303,10 +317,54 @@ def special_pool():
                               ("m4", ["module", "tiny", 4]), ("l", ["tuple", [["module", "tiny-nobuf", 5]]]), ("g", ["tgen", 77]))))
     P.append(("optimizers", root(("o1", ["optimizer", "adam", 1, 2]), ("o2", ["optimizer", "sgd", 2, 0]), ("s1", ["scheduler", "sgd", 3, 3]))))
     P.append(("dill-fallback", root(("c", ["complex", 1.0, 2.0]), ("x", i(1)))))
+    # dill-fallback values inside containers (fixes/C01-dill-fallback-in-container.diff) and complex NumPy scalars
+    # (fixes/C01-npscalar-complex.diff): attribute, list, tuple, dict, set, nested
+    P.append(("dill-in-containers", root(("l", ["list", [["complex", 1.0, 2.0], s("a")]]), ("d", ["dict", [["k", ["complex", 0.0, -1.0]], ["0", i(1)]]]),
+                                         ("t", ["tuple", [["list", [["complex", 2.0, 0.5]]], ["none"]]]), ("s", ["set", [["complex", 3.0, 1.0], s("z")]]),
+                                         ("u", ["arr", "uint8", [5], 7, "C"]), ("lu", ["list", [["arr", "uint8", [4], 8, "C"], s("bytes")]]))))
+    P.append(("np-complex", root(("c", ["np", "complex64", [1.0, 2.0]]), ("z", ["np", "complex128", [0.0, -0.5]]),
+                                 ("l", ["list", [["np", "complex64", [1.5, 1.0]], i(1)]]), ("d", ["dict", [["k", ["np", "complex128", [2.0, 2.0]]]]]),
+                                 ("m", ["list", [["np", "complex64", [1.0, 0.0]], f(0.5)]]), ("x", i(1)))))
+    # random generators inside containers (fixes/C01-rng-in-container.diff): every bit generator, every container kind
+    P.append(("rng-in-containers", root(("l", ["list", [["rng", "PCG64", 1], i(1)]]), ("t", ["tuple", [["rng", "MT19937", 2]]]),
+                                        ("d", ["dict", [["r", ["rng", "Philox", 3]], ["n", ["list", [["rng", "SFC64", 4], s("x")]]]]]),
+                                        ("s", ["set", [["rng", "PCG64", 5], s("y")]]), ("r", ["rng", "SFC64", 6]))))
+    # torch container modules (ModuleList / Sequential / ParameterList): nn.Modules, so _serialize_value saves them whole;
+    # as attributes and inside list / tuple / dict / nested containers
+    P.append(("torch-containers", root(("ml", ["module", "modulelist", 3]), ("sq", ["module", "seq", 4]), ("pl", ["paramlist", 5]),
+                                       ("l", ["list", [["module", "modulelist", 6], ["module", "seq", 7], s("a")]]),
+                                       ("d", ["dict", [["m", ["module", "modulelist", 8]], ["p", ["paramlist", 9]],
+                                                       ["n", ["tuple", [["module", "seq", 10], ["list", [["paramlist", 11]]]]]]]]))))
+    # attrs-decorated classes (__attrs_attrs__ branch of _recursive_save / whitelist of _recursive_load), with and without slots,
+    # as root, as attribute, inside containers
+    for n, (c1, c2) in enumerate([("NodeAttrs", "NodeSlots"), ("NodeSlots", "NodeAttrs")]):
+        P.append(("attrs-classes-%d" % n, root(("a", ["arr", "float32", [2, 2], 3, "C"]), ("b", ["list", [i(1), s("q")]]),
+                                               ("x", ["obj", c2, [["a", f(1.5)], ["data", ["dict", [["k", ["arr", "int8", [], 4, "C"]]]]], ["x", ["path", "p/q"]]]]),
+                                               ("data", ["list", [["obj", c1, [["b", ["tensor", "float32", [2], True, False, 4]]]], ["obj", c2, [["x", ["set", [i(3), i(4)]]]]]]]),
+                                               cls=c1)))
     P.append(("array-dtypes", root(*[("a%d" % n, ["arr", dt, sh, 40 + n, lay]) for n, (dt, sh, lay) in enumerate(
         [(d, [2, 3], "C") for d in ARR_DTYPES] + [("float64", [4, 4], "F"), ("int32", [3], "strided"), ("float32", [2, 1, 2], "F"),
                                                   ([["a", "<i4"], ["b", "<f8"]], [3], "C")])])))
     return P
+
+
+def oracle_only_pool():
+    """kinds the Coq model has no constructor for: judged by the oracle alone (same kind of object back)"""
+    return [
+        ("summarywriter", root(("w", ["summarywriter", "tb"]), ("l", ["list", [["summarywriter", "tb2"], ["int", 1]]]),
+                               ("d", ["dict", [["w", ["summarywriter", "tb3"]]]]), ("x", ["int", 1]))),
+    ]
+
+
+def outside_pool():
+    """graphs outside the quantified domain whose behaviour the model nevertheless predicts (save writes the group,
+    the container decoder has no branch for it: load raises).  Model agreement is recorded, never judged."""
+    i = lambda n: ["int", n]  # noqa: E731
+    return [
+        ("outside:optimizer-in-list", root(("l", ["list", [["optimizer", "sgd", 1, 1], i(1)]]))),
+        ("outside:scheduler-in-dict", root(("d", ["dict", [["s", ["scheduler", "adam", 2, 2]]]]))),
+        ("outside:optimizer-in-tuple-nested", root(("t", ["tuple", [["list", [["optimizer", "adam", 3, 0]]], ["str", "a"]]]))),
+    ]
 
 
 def known_limit_pool():
@@ -314,10 +372,8 @@ def known_limit_pool():
     is replayed on every run; key = label"""
     i = lambda n: ["int", n]  # noqa: E731
     return [
-        ("npscalar-complex", root(("c", ["np", "complex64", [1.0, 2.0]]), ("x", i(1)))),
         ("ndarray-bigendian", root(("a", ["arr", ">i4", [3], 5, "C"]))),
         ("ndarray-object-dtype", root(("a", ["arr", "O", [3], 5, "C"]))),
-        ("rng-in-container", root(("l", ["list", [["rng", "PCG64", 1], i(1)]]))),
         ("legacy-randomstate", root(("r", ["randomstate", 3]))),
         ("numeric-seq-int-float-precision", root(("l", ["list", [i(2 ** 53 + 1), f(0.5)]]))),
         ("dict-key-path-component", root(("d", ["dict", [["", ["arr", "float64", [2], 1, "C"]]]]))),
@@ -406,4 +462,4 @@ def shrink(case, key, budget=40):
 
 def case_hash(case):
     return hashlib.sha1(json.dumps([case["spec"], case["cfg"], case.get("skip_save_names"), case.get("skip_save_types"),
-                                    case.get("skip_load_names")], sort_keys=True, default=str).encode()).hexdigest()
+                                    case.get("skip_load_names"), case.get("skip_load_types")], sort_keys=True, default=str).encode()).hexdigest()
